@@ -11,6 +11,8 @@ package cran
 //@   ensures result == (a < b ? -1 : (a > b ? 1 : 0))     [C01 C03]   // C01: Compare orders by length with the same function, which is transitive only for the standard order
 
 //@ func (*Version).Compare
+//@   ensures first-difference: forall k int :: 0 <= k && k < len(v.components) && k < len(other.components) && (forall j int :: 0 <= j && j < k ==> v.components[j] == other.components[j]) && v.components[k] != other.components[k] ==> result == (v.components[k] < other.components[k] ? -1 : 1)   [C03]
+//@   ensures equal-tuples: len(v.components) == len(other.components) && (forall j int :: 0 <= j && j < len(v.components) ==> v.components[j] == other.components[j]) ==> result == 0   [C03]
 //@   comparator v ~ other                                 [C01]
 
 // ---- constructors: value xor error (C06); the fact is structural (untagged) because callers rely on it
@@ -73,3 +75,9 @@ package cran
 
 //@ func (*VersionRange).String
 //@   ensures text: result == arg0.original   [C18]
+
+// lifting to whole ranges: an AND-range of comparator constraints treats versions that compare equal alike (the two
+// quantified sides are what Contains returns for v1 and v2, by its `and` clause)
+//@ lemma c20-range-equal [C20] uses c20-equal: forall vr *VersionRange, v1, v2 *Version :: vr != nil && v1 != nil && v2 != nil && wfRange(vr) && (forall i int :: 0 <= i && i < len(vr.constraints) ==> vr.constraints[i].version != nil && (vr.constraints[i].operator == "=" || vr.constraints[i].operator == "!=" || vr.constraints[i].operator == "<" || vr.constraints[i].operator == "<=" || vr.constraints[i].operator == ">" || vr.constraints[i].operator == ">=")) && v1.Compare(v2) == 0 ==> ((forall i int :: 0 <= i && i < len(vr.constraints) ==> satisfiesConstraint(v1, vr.constraints[i])) == (forall i int :: 0 <= i && i < len(vr.constraints) ==> satisfiesConstraint(v2, vr.constraints[i])))
+// ... and the set a range without != accepts is convex in the order
+//@ lemma c20-range-convex [C20] uses c20-convex: forall vr *VersionRange, a, b, d *Version :: vr != nil && a != nil && b != nil && d != nil && wfRange(vr) && (forall i int :: 0 <= i && i < len(vr.constraints) ==> vr.constraints[i].version != nil && (vr.constraints[i].operator == "=" || vr.constraints[i].operator == "!=" || vr.constraints[i].operator == "<" || vr.constraints[i].operator == "<=" || vr.constraints[i].operator == ">" || vr.constraints[i].operator == ">=") && vr.constraints[i].operator != "!=") && a.Compare(b) <= 0 && b.Compare(d) <= 0 && (forall i int :: 0 <= i && i < len(vr.constraints) ==> satisfiesConstraint(a, vr.constraints[i])) && (forall i int :: 0 <= i && i < len(vr.constraints) ==> satisfiesConstraint(d, vr.constraints[i])) ==> (forall i int :: 0 <= i && i < len(vr.constraints) ==> satisfiesConstraint(b, vr.constraints[i]))
